@@ -270,6 +270,9 @@ package core
 //@   ensures [nothing_installed] ghost.pm_use_calls[ival(s.invokeManager)] == old(ghost.pm_use_calls[ival(s.invokeManager)]) &&
 //@       ghost.pm_use_calls[ival(s.ioManager)] == old(ghost.pm_use_calls[ival(s.ioManager)])
 
+//@ global ErrRequestEntityTooLarge != nil
+//@ global ErrClosed != nil
+
 // ---- the service entry point the transports hand requests to ---------------
 //
 // C13: a transport may call Handle only with a request whose length is within
@@ -289,3 +292,17 @@ package core
 //@   ensures ghost.handled == old(ghost.handled) + 1 && same(ghost.handled_req, request)
 //@   ensures same(result0, ghost.handle_resp) && same(result1, ghost.handle_err) && ghost.npanic_handle == old(ghost.npanic_handle)
 //@   ensures_panic ghost.handled == old(ghost.handled) + 1 && same(ghost.handled_req, request) && ghost.npanic_handle == old(ghost.npanic_handle) + 1
+
+// A worker pool runs the submitted task on one of its goroutines; the task itself must not let
+// a panic escape (that is an obligation on the tasks the transports build, not on the pool).
+//@ iface WorkerPool.Submit(self, f)
+//@   nopanic
+//@   havoc
+
+// classification of errors by optional methods (net errors): no panic assumed
+//@ func IsTemporaryError
+//@   nopanic
+//@   havoc
+//@ func IsTimeoutError
+//@   nopanic
+//@   havoc
